@@ -546,6 +546,41 @@ def sizeof_of_names(ctx):
                 ctx.event("sizeof_of_names_checked")
 
 
+def sizeof_of_a_name_that_is_also_a_member(ctx):
+    """The operand of sizeof() is the name of a type, also when a preceding member carries the same name: the array is
+    fixed-size, the structure static, every later offset known."""
+    for align in (False, True):
+        for compiled in (True, False):
+            text = ("struct header { uint8 a; uint16 b; };\ntypedef uint32 word;\n"
+                    "struct block { header header; uint8 reserved[8 - sizeof(header)]; uint32 crc; };\n"
+                    "struct inner { struct { word word; }; char pad[sizeof(word) * 2]; uint8 t; };\n"
+                    "struct file { uint8 kind; block blocks[2]; uint8 tail[sizeof(block)]; };\n")
+            ctx.evaluation(("sizeof-name-is-a-member", align, compiled))
+            ctx.cell("sizeof-of-names:also-a-member")
+            det = {"text": text, "align": align, "compiled": compiled, "workload": "sizeof-of-names"}
+            try:
+                cs = lib.load(text, "<", align, compiled)
+                hs = 4 if align else 3
+                bs = hs + (8 - hs) + 4
+                fs = (4 if align else 1) + 2 * bs + bs
+                want = {"header": hs, "block": bs, "block offsets": [0, hs, 8], "inner": 4 + 8 + (4 if align else 1),
+                        "file": fs, "static": True}
+                got = {"header": len(cs.header), "block": cs.block.size, "block offsets": [f.offset for f in cs.block.__fields__],
+                       "inner": cs.inner.size, "file": cs.file.size, "static": not (cs.block.dynamic or cs.file.dynamic or cs.inner.dynamic)}
+                data = bytes(range(1, 1 + fs))
+                o = cs.file(data)
+                got["consumed-and-dumped"] = (len(o.dumps()), len(o.tail))
+                want["consumed-and-dumped"] = (fs, bs)
+            except Exception as e:  # noqa: BLE001
+                ctx.violation("sizeof", f"sizeof-of-a-type-name-raises:{type(e).__name__}", dict(det, error=lib.exc_sig(e)))
+                continue
+            bad = {k: (got.get(k), v) for k, v in want.items() if got.get(k) != v}
+            if bad:
+                ctx.violation("sizeof", "sizeof-in-expression-differs-from-len", dict(det, got=repr(bad)))
+            else:
+                ctx.event("sizeof_of_names_checked")
+
+
 def custom_alignments(ctx, rng, n):
     """A type registered with add_custom_type(name, T, size, alignment) is laid out like any member of that size and
     alignment: offsets, padding, structure alignment and size, elements of arrays, nesting; bytes consumed and
@@ -636,6 +671,7 @@ def run(ctx):
         empty_structures(ctx)
     if ctx.shard == 1:
         sizeof_of_names(ctx)
+        sizeof_of_a_name_that_is_also_a_member(ctx)
     if ctx.shard % 4 == 2:
         custom_alignments(ctx, ctx.rng("custom-alignments"), 6 if not ctx.thorough else 60)
     offset_gaps(ctx, 6 if not ctx.thorough else 120)
@@ -664,6 +700,7 @@ def replay(ctx, detail):
     if detail.get("workload") == "sizeof-of-names":
         print(detail)
         sizeof_of_names(ctx)
+        sizeof_of_a_name_that_is_also_a_member(ctx)
         return
     if detail.get("workload") == "custom-alignments":
         print(detail)
